@@ -377,33 +377,35 @@ Proof.
   apply andb_prop in C. destruct C as [C _]. apply Nat.eqb_eq in C. subst. simpl. apply F1.
 Qed.
 
-Lemma chase_names w a U fuel cur n a' r :
-  Inv w a U [] -> chase Cur fuel w a cur n = Some (a', r) -> names_kept U a a'.
+Lemma chase_names w a U fuel cur n dang a' r :
+  Inv w a U [] -> chase Cur fuel w a cur n dang = Some (a', r) -> names_kept U a a'.
 Proof.
   intros H. unfold chase.
   assert (Same : names_kept U a a) by (intros idx _; reflexivity).
   destruct ((length (tab a) <=? cur) || Nat.eqb (in_use (slot_at a cur)) 0); [intros Q; inversion Q; subst; exact Same|].
   destruct (fname (slot_at a cur)) as [nm|]; [|intros Q; inversion Q; subst; exact Same].
-  destruct (has_link w nm n); simpl; [|intros Q; inversion Q; subst; exact Same].
+  destruct (if dang then has_dlink w nm n else has_link w nm n); simpl; [|intros Q; inversion Q; subst; exact Same].
   destruct (match lcache a with
-            | Some (c, m, li) => if Nat.eqb c cur && Nat.eqb m n then Some li else None
+            | Some (c, m, li) => if Nat.eqb c cur && Nat.eqb m n && negb dang then Some li else None
             | None => None
             end) as [hli|].
   { destruct ((length (tab a) <=? hli) || Nat.eqb (in_use (slot_at a hli)) 0); intros Q; inversion Q; subst; exact Same. }
   assert (G : match find_name (tab a) n with
-        | Some li => Some (set_cache (link_add a cur li true) (Some (cur, n, li)), Some li)
+        | Some li => let a1 := link_add a cur li true in
+                     if dang then Some (a1, None) else Some (set_cache a1 (Some (cur, n, li)), Some li)
         | None => match adf_database_open Cur fuel w a n true with
                   | None => None
                   | Some (a1, None) => Some (a1, None)
-                  | Some (a1, Some li) => Some (set_cache (link_add a1 cur li false) (Some (cur, n, li)), Some li)
+                  | Some (a1, Some li) => let a2 := link_add a1 cur li false in
+                                          if dang then Some (a2, None) else Some (set_cache a2 (Some (cur, n, li)), Some li)
                   end
         end = Some (a', r) -> names_kept U a a').
   { destruct (find_name (tab a) n) as [li|].
-    - intros Q. inversion Q; subst. intros idx _. apply (link_add_fname a cur li true idx).
+    - simpl. destruct dang; intros Q; inversion Q; subst; intros idx _; apply (link_add_fname a cur li true idx).
     - destruct (adf_database_open Cur fuel w a n true) as [[a1 [li|]]|] eqn:Op; [| |discriminate].
-      + intros Q. inversion Q; subst. intros idx Hin.
-        change (fname (slot_at (link_add a1 cur li false) idx) = fname (slot_at a idx)).
-        rewrite link_add_fname. exact (adf_open_names _ _ _ _ _ _ _ _ H Op idx Hin).
+      + assert (K : names_kept U a (link_add a1 cur li false)).
+        { intros idx Hin. rewrite link_add_fname. exact (adf_open_names _ _ _ _ _ _ _ _ H Op idx Hin). }
+        simpl. destruct dang; intros Q; inversion Q; subst; exact K.
       + intros Q. inversion Q; subst. exact (adf_open_names _ _ _ _ _ _ _ _ H Op). }
   destruct (kind_of w n); try exact G; intros Q; inversion Q; subst; exact Same.
 Qed.
@@ -411,12 +413,12 @@ Qed.
 Lemma walk_names w U fuel chain : forall a cur a' ok,
   Inv w a U [] -> walk Cur fuel w a cur chain = Some (a', ok) -> names_kept U a a'.
 Proof.
-  induction chain as [|n r IH]; intros a cur a' ok H; simpl.
+  induction chain as [|[n dang] r IH]; intros a cur a' ok H; simpl.
   - intros Q. inversion Q; subst. intros idx _. reflexivity.
-  - destruct (chase Cur fuel w a cur n) as [[a1 [li|]]|] eqn:Ch; [| |discriminate].
-    + intros Q idx Hin. rewrite (IH _ _ _ _ (chase_inv _ _ _ _ _ _ _ _ H Ch) Q idx Hin).
-      exact (chase_names _ _ _ _ _ _ _ _ H Ch idx Hin).
-    + intros Q. inversion Q; subst. exact (chase_names _ _ _ _ _ _ _ _ H Ch).
+  - destruct (chase Cur fuel w a cur n dang) as [[a1 [li|]]|] eqn:Ch; [| |discriminate].
+    + intros Q idx Hin. rewrite (IH _ _ _ _ (chase_inv _ _ _ _ _ _ _ _ _ H Ch) Q idx Hin).
+      exact (chase_names _ _ _ _ _ _ _ _ _ H Ch idx Hin).
+    + intros Q. inversion Q; subst. exact (chase_names _ _ _ _ _ _ _ _ _ H Ch).
 Qed.
 
 (* ============================================================================================ cgio: what open and close do to iolist *)
@@ -713,10 +715,10 @@ Proof.
 Qed.
 
 (* non-vacuity: eight files open at once, opened and closed in an interleaved order with slot reuse and table growth *)
-Definition w8 : world := mkW (repeat KOk 8) [(0, 1); (2, 1)].
+Definition w8 : world := mkW (repeat KOk 8) [(0, 1); (2, 1)] [].
 Definition ops8 : list op :=
   [OOpen 0 false; OOpen 1 true; OOpen 2 false; OClose 2; OOpen 3 false; OOpen 4 false; OOpen 5 true; OOpen 6 false;
-   OOpen 7 false; OWalk 1 [1]; OOpen 2 false; OWalk 2 [1]; OClose 1; OOpen 0 true].
+   OOpen 7 false; OWalk 1 [(1, false)]; OOpen 2 false; OWalk 2 [(1, false)]; OClose 1; OOpen 0 true].
 
 Lemma io_example8 :
   exists s live, hrun 1000 w8 io_init [] ops8 = Some (s, live) /\ length live = 8 /\ length (iol s) = 8 /\
